@@ -156,11 +156,9 @@ def convert(input_image_stream, output_image_stream):
             if b == 0:
                 break
             a = ord(iotostr(f.read(1)))
-            for jj in range(b):
+            for jj in range(min(b, y)):
                 dump(a)
                 y = y - 1
-                if y <= 0:
-                    break
     else:
         for jj in range(y):
             dump(ord(iotostr(f.read(1))))
